@@ -14,3 +14,6 @@ import MicroHttp.Props.Tables
 #print axioms MicroHttp.Tables.version_raw
 #print axioms MicroHttp.Tables.response_writer
 #print axioms MicroHttp.Tables.allow_loop
+#print axioms MicroHttp.Tables.response_new
+#print axioms MicroHttp.Tables.response_apply
+#print axioms MicroHttp.Tables.response_build
